@@ -145,12 +145,15 @@ class FakeKernel:
         if t == xfrmdec.FLUSHSA:
             # include/net/xfrm.h xfrm_id_proto_match(): 0 and IPSEC_PROTO_ANY (255) match every IPsec protocol, anything else only itself
             proto = msg.get('proto', 0)
-            for key in [k for k in self.sad if proto in (0, 255) or k[1] == proto]:
+            hit = [k for k in self.sad if proto in (0, 255) or k[1] == proto]
+            for key in hit:
                 del self.sad[key]
-            return 0
+            # (older kernels report a flush that found nothing as ESRCH)
+            return -3 if not hit and getattr(self, 'esrch_on_empty_flush', False) else 0
         if t == xfrmdec.FLUSHPOLICY:
+            had = bool(self.spd)
             self.spd.clear()
-            return 0
+            return -3 if not had and getattr(self, 'esrch_on_empty_flush', False) else 0
         return -95
 
     def socket(self, groups):
